@@ -1020,6 +1020,8 @@ class FnTr:
                 return self.emit_call(name, sv, args)
         if name == "copy_from_slice" and len(args) == 1:
             return self.copy_from_slice(recv, args[0])
+        if name == "copy_within" and len(args) == 2:
+            return self.copy_within(recv, args[0], args[1])
         # iterator idioms on byte strings
         if name == "all" and recv[0] == "mcall" and recv[2] == "iter":
             base = self.expr(recv[1])
@@ -1204,6 +1206,32 @@ class FnTr:
         self.for_stmt(("for", ("name", j), ("range", ("lit", 0, "usize"), ("lit", n, "usize"), False), (body, None)))
         return Val("()", "unit")
 
+    def copy_within(self, recv, src, dest):
+        """`a.copy_within(lo..hi, d)`: memmove inside one slice — all source elements are read before the first is written"""
+        base, off, ln = self.slice_of(recv)
+        s0 = src
+        while s0[0] == "paren":
+            s0 = s0[1]
+        if s0[0] != "range" or s0[1] is None or s0[2] is None:
+            raise Unsupported("copy_within with an open range")
+        lo, hi, d = self.expr(s0[1], "nat").lit, self.expr(s0[2], "nat").lit, self.expr(dest, "nat").lit
+        if lo is None or hi is None or d is None:
+            raise Unsupported("copy_within with bounds that are not constants")
+        if s0[3]:
+            hi += 1
+        n = hi - lo
+        if n < 0 or n > 64 or (ln is not None and (hi > ln or d + n > ln)):
+            raise Unsupported("copy_within out of range / of more than 64 elements")
+        tmps = []
+        for k in range(n):
+            x = self.read_elem(base, ("lit", off + lo + k, "usize"))
+            t = self.fresh("c")
+            self.emit(f"let {t} := {x.lean};")
+            tmps.append(Val(t, x.ty))
+        for k in range(n):
+            self.write_elem(base, ("lit", off + d + k, "usize"), tmps[k])
+        return Val("()", "unit")
+
     def call(self, e, want):
         f, args = e[1], e[2]
         if f[0] != "path":
@@ -1226,6 +1254,12 @@ class FnTr:
             if len(f[1]) == 1 and self.scope.get(name) is not None:
                 raise Unsupported(f"call of the local value {name}")
             return self.emit_call(name, None, args)
+        if full in ("u32::from", "u64::from", "u16::from", "u128::from") and len(args) == 1:
+            v = self.expr(args[0])
+            to = f[1][0]
+            if v.ty not in INT or v.ty.startswith("i") or v.ty in WRAP or INT[v.ty] > INT[to]:
+                raise Unsupported(f"{full} of a value of type {v.ty}")
+            return v if INT[v.ty] == INT[to] else Val(f"{v.atom()}.setWidth {INT[to]}", to)
         if full in ("u32::from_le_bytes", "u64::from_le_bytes"):
             a = self.expr(args[0])
             if a.elems is None:
@@ -1557,33 +1591,46 @@ class FnTr:
         return x
 
     def zip_for(self, var, it0, body):
-        """`for (x, y) in a.iter_mut().zip(b.iter()) { … *x … *y … }`: element-wise loop over min(len a, len b) positions"""
+        """`for (x, y) in a.iter_mut().zip(b.iter()) { … *x … *y … }`: element-wise loop over min(len a, len b) positions.
+        A side may also be `b.chunks_exact(c)` (c constant): then its variable is the k-th chunk, a slice view of b."""
         if len(var[1]) != 2 or it0[0] != "mcall" or it0[2] != "zip" or len(it0[3]) != 1:
             raise Unsupported("tuple loop variable")
-        l, r = it0[1], it0[3][0]
-        for side in (l, r):
-            if not (side[0] == "mcall" and side[2] in ("iter", "iter_mut") and not side[3]):
-                raise Unsupported("zip of something other than .iter() / .iter_mut()")
-        (lb, lo, ll), (rb, ro, rl) = self.slice_of(l[1]), self.slice_of(r[1])
-        if ll is None or rl is None:
+        sides = []
+        for side in (it0[1], it0[3][0]):
+            if side[0] == "mcall" and side[2] in ("iter", "iter_mut") and not side[3]:
+                b, o, l = self.slice_of(side[1])
+                sides.append((b, o, l, 1, False))
+            elif side[0] == "mcall" and side[2] == "chunks_exact" and len(side[3]) == 1:
+                c = self.expr(side[3][0], "nat").lit
+                b, o, l = self.slice_of(side[1])
+                if not c:
+                    raise Unsupported("chunks_exact with a non-constant size")
+                sides.append((b, o, None if l is None else l // c, c, True))
+            else:
+                raise Unsupported("zip of something other than .iter() / .iter_mut() / .chunks_exact(c)")
+        if sides[0][2] is None or sides[1][2] is None:
             raise Unsupported("zip over slices of unknown length")
-        n = min(ll, rl)
-        flat = False
-        for b in (lb, rb):
+        n = min(sides[0][2], sides[1][2])
+        flat = any(c for _, _, _, _, c in sides)
+        for b, _, _, _, _ in sides:
             kind, pl, _ = self.resolve_base(b)
             if (kind == "var" and pl.elems is not None) or (kind == "field" and isinstance(pl[2], list)):
                 flat = True
-        x, y = var[1]
         if body[1] is not None:
             raise Unsupported("loop body with a value")
         if flat:
             if n > 64:
                 raise Unsupported("unrolled zip of more than 64 elements")
             for k in range(n):
-                m = {x: ("index", lb, ("lit", lo + k, "usize")), y: ("index", rb, ("lit", ro + k, "usize"))}
                 saved = self.scope
                 self.scope = Scope(saved)
                 try:
+                    m = {}
+                    for name, (b, o, _, c, chunk) in zip(var[1], sides):
+                        if chunk:
+                            self.scope.declare(name, Var(name, None, None, view=(b, o + c * k, c)))
+                        else:
+                            m[name] = ("index", b, ("lit", o + k, "usize"))
                     self.stmts(self.subst_deref(body[0], m))
                     self.end_scope()
                 finally:
@@ -1592,7 +1639,7 @@ class FnTr:
         j = self.fresh("j")
         def at(base, off):
             return ("index", base, ("path", [j]) if off == 0 else ("bin", "+", ("lit", off, "usize"), ("path", [j])))
-        m = {x: at(lb, lo), y: at(rb, ro)}
+        m = {name: at(b, o) for name, (b, o, _, _, _) in zip(var[1], sides)}
         self.for_stmt(("for", ("name", j), ("range", ("lit", 0, "usize"), ("lit", n, "usize"), False),
                        (self.subst_deref(body[0], m), None)))
 
